@@ -206,7 +206,8 @@ class DashApp:
         return Path(self.app.config['BLOB_FOLDER'])
 
     def add_fixture(self, name: str, with_subs: bool = True, directory: str | None = None,
-                    title: str | None = None, only: set[str] | None = None) -> None:
+                    title: str | None = None, only: set[str] | None = None,
+                    extra: list[tuple[Path, str]] | None = None) -> None:
         """Same rows as FlaskTestBase.setup_media_fixture; files are copied to the blob folder."""
         from dashlive.server import models
         from dashlive.drm.playready import PlayReady
@@ -232,11 +233,13 @@ class DashApp:
             if only is not None:
                 stems = [s for s in stems if s in only]
             mfs = []
-            for stem0 in stems:
-                src = src_dir / f'{stem0}.mp4'
-                # blob and media-file names are unique across the store: copies of a fixture
-                # under another directory are renamed <directory>_xx
-                stem = stem0 if directory == name else stem0.replace(name, directory, 1)
+            # blob and media-file names are unique across the store: copies of a fixture
+            # under another directory are renamed <directory>_xx
+            todo = [(src_dir / f'{stem0}.mp4', stem0, stem0 if directory == name else stem0.replace(name, directory, 1))
+                    for stem0 in stems]
+            # extra: (path of any fragmented MP4, media-file name such as <directory>_t2)
+            todo += [(Path(pth), stem_x, stem_x) for pth, stem_x in (extra or [])]
+            for src, stem0, stem in todo:
                 dst = dst_dir / f'{stem}.mp4'
                 if not dst.exists():
                     shutil.copyfile(src, dst)
